@@ -397,6 +397,53 @@ for rep in range(3):
         return run1(Executor(policy=pol), 'dadi/PhiManip.py', 'phi_3D_to_4D', [to_v(ph3), F(1, 5), F(3, 10), to_v(g3), to_v(g3), to_v(g3), to_v(g3)])
     case('phi_3D_to_4D.fancy-indexing', nat_ctor, sym_ctor)
 
+# --- Cache2D.integrate_point_pos: boolean-mask indexing (alone, with a slice, two masks), numpy.squeeze, numpy.concatenate, trapz along axis 1
+import types
+from dadi.DFE import Cache2D_mod
+for trial in range(3):
+    ng = sorted([-fr(0.5, 9.0) for _ in range(3)])
+    while len(set(ng)) < 3:
+        ng = sorted([-fr(0.5, 9.0) for _ in range(3)])
+    gam = ng + [F(3), F(5)]
+    spec = arr((5, 5, 2, 3))
+    NN = arr((2, 3))
+    cont = [fr(), fr()]
+    a1, a2 = rng.choice([3, 4]), rng.choice([3, 4])
+    pp1 = fr(0.2, 3.0)
+    pp2 = 1 / pp1          # ppos1*ppos2 = 1: the square root is exact
+    theta_, rho_ = fr(), fr(0.0, 1.0)
+    prm = cont + [pp1, gam[a1], pp2, gam[a2]]
+
+    def nat_pp():
+        me = types.SimpleNamespace(gammas=to_np(gam), neg_gammas=to_np(ng), spectra=to_np(spec), integrate=lambda *a, **k: to_np(NN))
+        pdf = lambda xx, yy, p: 1 + p[0] * xx[:, None] + 2 * p[1] * yy[None, :] + xx[:, None] * yy[None, :]
+        return Cache2D_mod.Cache2D.integrate_point_pos(me, [float(x) for x in prm], None, pdf, float(theta_), rho=float(rho_))
+
+    def sym_pp():
+        me = Tm('self')
+        me.attrs.update(gammas=to_v(gam), neg_gammas=to_v(ng), spectra=to_v(spec))
+        me.attrs['integrate'] = PyFn(lambda *a, **k: to_v(NN), 'self.integrate')
+
+        def pdf(xx, yy, p):
+            xs, ys, p = [exact(v) for v in xx.items], [exact(v) for v in yy.items], [exact(v) for v in (p.items if isinstance(p, VList) else p)]
+            return VList([VList([1 + p[0] * x + 2 * p[1] * y + x * y for y in ys], 'ndarray') for x in xs], 'ndarray')
+        return run1(Executor(), 'dadi/DFE/Cache2D_mod.py', 'Cache2D.integrate_point_pos', [me, VList(list(prm)), None, PyFn(pdf, 'pdf'), theta_], dict(rho=rho_))
+    case('Cache2D.integrate_point_pos.%d' % trial, nat_pp, sym_pp)
+
+    def nat_sym():
+        seen = {}
+        me = types.SimpleNamespace(integrate_point_pos=lambda params, ns, sd, theta, rho=0, pts=None: seen.update(p=list(params), rho=rho) or 0)
+        Cache2D_mod.Cache2D.integrate_symmetric_point_pos(me, [float(x) for x in cont + [rho_, pp1, gam[a1]]], None, None, 1.0)
+        return seen['p'] + [seen['rho']]
+
+    def sym_sym():
+        seen = {}
+        me = Tm('self')
+        me.attrs['integrate_point_pos'] = PyFn(lambda params, ns, sd, theta, rho=0, pts=None: seen.update(p=list(params.items), rho=rho) or 0, 'ipp')
+        run1(Executor(), 'dadi/DFE/Cache2D_mod.py', 'Cache2D.integrate_symmetric_point_pos', [me, VList(cont + [rho_, pp1, gam[a1]]), None, None, 1])
+        return VList(seen['p'] + [seen['rho']])
+    case('Cache2D.integrate_symmetric_point_pos.%d' % trial, nat_sym, sym_sym)
+
 print('E2-vs-CPython cross-check: %d cases, %d mismatches (seed %d)' % (count[0], len(fails), seed))
 for n_, why in fails:
     print('MISMATCH %s: %s' % (n_, why))
